@@ -726,6 +726,11 @@ def _api_datasets(job, work, perturb=False):
     return out
 
 
+# (method, aborted at max_nfev) of every fit of the most recent API route of a fit job
+_FIT_CHAIN = []
+ABORTKEY = "C19/fit/aborted-leastsq-undefined-values"
+
+
 def api_tables(job, work, perturb=False):
     """The DataFrames of the API calls that correspond to the command, in output order."""
     from pyimpspec import calculate_drt, fit_circuit, generate_mock_circuits, parse_cdc, simulate_spectrum
@@ -752,10 +757,13 @@ def api_tables(job, work, perturb=False):
         kw = {"method": job["method"], "weight": job["weight"], "num_procs": 1}
         if job.get("max_nfev") is not None:
             kw["max_nfev"] = job["max_nfev"]
+        del _FIT_CHAIN[:]
         for d in _api_datasets(job, work, perturb):
             fit = fit_circuit(parse_cdc(job["cdc"]), d, **kw)
+            _FIT_CHAIN.append((fit.method, bool(getattr(fit.minimizer_result, "aborted", False))))
             for _ in range(job.get("nr") or 0):
                 fit = fit_circuit(fit.circuit, d, **kw)
+                _FIT_CHAIN.append((fit.method, bool(getattr(fit.minimizer_result, "aborted", False))))
             tabs.append(fit.to_parameters_dataframe(running=True) if job.get("rc") else fit.to_parameters_dataframe())
             tabs.append(fit.to_statistics_dataframe())
         return tabs
@@ -933,6 +941,10 @@ def run_job(job, res):
             tables, _others = C.extract_tables(printed, fmt)
             shown = {"printed": printed[-1500:] if "\r" in printed else printed[:1500]}
         st(f"tables_expected:{clause}", len(expected))
+        if clause == "fit":
+            st("fit_jobs")
+            if any(m_ == "leastsq" and ab for m_, ab in _FIT_CHAIN):
+                st("fit_jobs_with_aborted_leastsq_fit")
         if len(tables) != len(expected):
             viol.append({"key": f"C19/{clause}/{fmt}/table-count",
                          "msg": f"pyimpspec {' '.join(argv)}: {len(tables)} table(s) found in the {fmt} output, the API calls give {len(expected)}",
@@ -957,8 +969,12 @@ def run_job(job, res):
                 if ill:
                     st(f"ill_conditioned_no_verdict:{clause}")
                     continue
+            # open finding, keyed by mechanism: a 'leastsq' fit that was aborted at --max-nfev returns lmfit's last_internal_values, a
+            # non-owning view of MINPACK's released work array, so the first varied parameter(s) of the result are undefined and
+            # two bit-identical calls (the CLI's and the harness's) may return different numbers
+            undefined = clause == "fit" and any(m_ == "leastsq" and ab for m_, ab in _FIT_CHAIN)
             for kind, msg in r["problems"][:3]:
-                viol.append({"key": f"C19/{clause}/{fmt}/{kind}",
+                viol.append({"key": ABORTKEY if (undefined and kind == "number") else f"C19/{clause}/{fmt}/{kind}",
                              "msg": f"pyimpspec {' '.join(argv)}: table {k} ({list(df.columns)[:3]}...): {msg}",
                              "witness": witness(dict(shown, api_table_head=df.head(8).to_csv(index=False)))})
             if r["sigloss"]:
